@@ -637,8 +637,14 @@ CO_ERR COSdoEndDownloadBlock(CO_SDO *srv)
     cmd = CO_GET_BYTE(srv->Frm, 0);
     if ((cmd & 0x01) != 0) {
         n      = (cmd & 0x1C) >> 2;
-        len    = ((uint32_t)srv->Buf.Num - n);
-        result = COObjWrBufCont(srv->Obj, srv->Node, srv->Buf.Start, len);
+        if (n > srv->Buf.Num) {
+            /* more unused bytes than bytes waiting in buffer */
+            len    = 0;
+            result = CO_ERR_SDO_WRITE;
+        } else {
+            len    = ((uint32_t)srv->Buf.Num - n);
+            result = COObjWrBufCont(srv->Obj, srv->Node, srv->Buf.Start, len);
+        }
         if (result != CO_ERR_NONE) {
             srv->Node->Error = CO_ERR_SDO_WRITE;
             COSdoAbort(srv, CO_SDO_ERR_TOS);
